@@ -482,7 +482,7 @@ func checkRHP2(c R2Case) error {
 		}
 		_, after := fc.state()
 		authenticated := fc.spec.Region != "len"
-		fullFrame := fc.spec.Op == "flip" || fc.spec.Op == "insert" || fc.spec.Op == "dup" || (fc.spec.Op == "drop" && after >= 1)
+		fullFrame := fc.spec.Op == "flip" || fc.spec.Op == "setlen" || fc.spec.Op == "insert" || fc.spec.Op == "dup" || (fc.spec.Op == "drop" && after >= 1)
 		if authenticated && fullFrame {
 			if !tr.IsClosed() || tr.PrematureCloseErr() == nil {
 				return fail("frame modified in transit (%s in %s, message %d %s): read failed with %q but the session is not closed (IsClosed=%v PrematureCloseErr=%v)",
@@ -587,6 +587,9 @@ func drawFault(t *rapid.T, frameMode bool, maxFrame int) *FaultSpec {
 	}
 	if frameMode {
 		f.Region = rapid.SampledFrom([]string{"len", "nonce", "ct", "ct", "tag"}).Draw(t, "fault-region")
+		if rapid.IntRange(0, 7).Draw(t, "fault-setlen") == 0 {
+			f.Op, f.Region = "setlen", "len" // hostile length word (a peer, not line noise)
+		}
 	}
 	return f
 }
